@@ -55,6 +55,9 @@ def gen_case(rng):
                 pl["__mixed__"] = rng.choice(["top-int", "nested-int", "none-key"])  # expanded by the stand-in (JSON cannot carry non-string keys)
             logs.append([name, pl])
         deltas = [["node", f"n:{a}:{rng.choice('abc')}", "weight", rng.choice([0.1, -0.2, 0.3]), 1] for _ in range(rng.randint(0, 4))]
+        if rng.random() < 0.12:
+            # a chatty compute phase: hundreds of small records in one turn
+            logs += [[rng.choice(["t1.jsonl", "t2.jsonl"]), {"turn": 1, "agent": a, "k": j, "ms": 0.5, "body": "y"}] for j in range(rng.choice([130, 200, 300]))]
         specs[a] = {"logs": logs, "deltas": deltas, "progress": rng.choice([0, 0, 2, 5]), "utter": f"utter of {a} " + rng.choice(["", "ünï", "x" * 50])}
     sizes = sorted({sum(len(str(k)) + len(str(v)) for k, v in p.items()) + 2 for s in specs.values() for _, p in s["logs"]} or {30})
     limit = rng.choice([None, 1, 2, sizes[0] - 1, sizes[0], sizes[0] + 1, 150, 4096, sizes[-1], sum(sizes)])
@@ -62,7 +65,10 @@ def gen_case(rng):
     # where the driver finds an agent's graph set: state["agents"][a] as dict or object, a record without a graphs
     # entry that falls back to state["graphs_by_agent"], or graphs_by_agent only
     layout = {a: rng.choice(["agents-dict", "agents-dict", "agents-obj", "record-without-graphs+gba", "gba-only"]) for a in agents}
-    return {"agents": agents, "graphs": graphs, "specs": specs, "limit": limit if (limit is None or limit >= 1) else 1, "workers": workers, "layout": layout,
+    regraph = None
+    if rng.random() < 0.3:
+        regraph = {a: (rng.sample(pool[:5], rng.randint(0, 3)) if rng.random() < 0.6 else list(graphs[a])) for a in agents}
+    return {"regraph": regraph, "agents": agents, "graphs": graphs, "specs": specs, "limit": limit if (limit is None or limit >= 1) else 1, "workers": workers, "layout": layout,
             "turn_id": rng.choice([1, 1, 7, "x", 0, 0]), "cadence": rng.choice([1, 1, 2, 3]), "overlap": overlap,
             # optionally each agent's turn carries its own id (set by the compute phase), ascending in task order and straddling
             # a digit boundary / zero
@@ -194,6 +200,30 @@ def run_driver(case, parallel, sess, direct=False):
                         "logs": {k: v.replace(snapd.encode(), b"<SNAP>") for k, v in dir_bytes(logd).items()},
                         "snaps": {k: v for k, v in dir_bytes(snapd).items() if k.endswith(".json")},
                         "computed": computed, "trace": trace, "flushes": flushes[0]})
+            second = None
+            if case.get("regraph") and parallel and not direct and exc is None:
+                # the roster changes in place (same mapping objects) and another batch runs on the same state
+                for a_, g_ in case["regraph"].items():
+                    lay_ = (case.get("layout") or {}).get(a_, "agents-dict")
+                    if lay_ == "agents-dict":
+                        state["agents"][a_]["graphs"] = list(g_)
+                    elif lay_ == "agents-obj":
+                        state["agents"][a_].graphs = list(g_)
+                    else:
+                        state["graphs_by_agent"][a_] = list(g_)
+                computed2 = []
+
+                def compute_w2(c, base, aid, text):
+                    computed2.append(aid)
+                    return real_compute(c, base, aid, text)
+
+                with patched(core.Orchestrator, "run_turn", make_standin(dict(case, graphs=case["regraph"]), trace)), patched(orch, "_run_turn_compute", compute_w2), patched(orch, "enable_staging", enable):
+                    try:
+                        P._run_agents_parallel_batch(ctx, state, tasks)
+                        second = {"computed": computed2}
+                    except Exception as ex:
+                        second = {"exc": f"{type(ex).__name__}: {ex}"}
+            out["second"] = second
         finally:
             for k, v in old_env.items():
                 if v is None:
@@ -247,6 +277,15 @@ def check_case(case, sess: Session):
             sess.violation("overlapping-agents-computed-in-one-batch", case, {"computed": par_["computed"]})
             break
         seen_g |= g
+    if par_.get("second") and case["workers"] > 1:
+        sec = par_["second"]
+        sess.count("second_batches_after_a_roster_change")
+        if "exc" in sec:
+            sess.violation("second-batch-raises", case, sec["exc"][:200])
+        else:
+            exp2 = model_pick(dict(case, graphs=case["regraph"]))
+            if sec["computed"] != exp2:
+                sess.violation("computed-set-not-the-independent-batch:second-batch-after-roster-change", case, {"computed": sec["computed"], "model": exp2, "graphs_now": case["regraph"]})
     held = [a for a in agents if a not in exp_pick]
     pairwise_disjoint = all(set(case["graphs"][a]).isdisjoint(case["graphs"][b]) for i, a in enumerate(agents) for b in agents[i + 1:])
     if len(par_["computed"]) >= 2 or par_["flushes"] > 1 or held:
